@@ -187,6 +187,7 @@ class Explorer:
         self.states = {}      # block -> set of states at block entry
         self.parent = {}      # (block, state) -> (pred block, pred state)
         self.out_states = {}  # block -> set of states after the block's statements (before terminator)
+        self.out_entry = {}   # (block, out state) -> one entry state leading to it
         self.n_states = 0
 
     # --- transfer of one block's statements + call destination on flags/facts
@@ -231,7 +232,9 @@ class Explorer:
             bi, st = work.pop()
             b = body.blocks[bi]
             fl, facts = self._through_block(b, st[0], st[1])
-            self.out_states.setdefault(bi, set()).add((tuple(sorted(fl.items())), facts))
+            ost = (tuple(sorted(fl.items())), facts)
+            self.out_states.setdefault(bi, set()).add(ost)
+            self.out_entry.setdefault((bi, ost), st)
             t = b.term
             if t.k == 'switch':
                 info = self.sw[bi]
